@@ -66,6 +66,63 @@ func negotiate(c *core.Ctx) {
 		}
 		return false
 	}
+	// the accept list: strings.FieldsFunc/Split/Fields(accept, ...) or a local defined as that
+	isAcceptList := func(e ast.Expr) bool {
+		e = astx.Unparen(e)
+		if id, ok := e.(*ast.Ident); ok {
+			if def := soleDefinition(info, fd.Body, astx.ObjOf(info, id)); def != nil {
+				e = astx.Unparen(def)
+			}
+		}
+		call, ok := e.(*ast.CallExpr)
+		if !ok || len(call.Args) < 1 || astx.ObjOf(info, call.Args[0]) != accept {
+			return false
+		}
+		callee := astx.Callee(info, call)
+		return astx.IsPkgFunc(callee, "strings", "FieldsFunc") || astx.IsPkgFunc(callee, "strings", "Split") || astx.IsPkgFunc(callee, "strings", "Fields")
+	}
+	// acceptElem recognises "the current element of the accept list, visited front to back":
+	// the value variable of a range over the list, or list[i] inside `for i := 0; i < len(list); i++`.
+	acceptElem := func(e ast.Expr) (string, bool) {
+		e = astx.Unparen(e)
+		switch x := e.(type) {
+		case *ast.Ident:
+			obj := astx.ObjOf(info, x)
+			for _, l := range loopsIn(fd.Body) {
+				if r, ok := l.(*ast.RangeStmt); ok && r.Value != nil && obj != nil && astx.ObjOf(info, r.Value) == obj && isAcceptList(r.X) {
+					return astx.CanonKey(info, x), true
+				}
+			}
+		case *ast.IndexExpr:
+			idx := astx.ObjOf(info, x.Index)
+			if idx == nil || !isAcceptList(x.X) {
+				return "", false
+			}
+			for _, l := range loopsIn(fd.Body) {
+				f, ok := l.(*ast.ForStmt)
+				if !ok || !astx.Contains(f, x) {
+					continue
+				}
+				init, ok1 := f.Init.(*ast.AssignStmt)
+				post, ok2 := f.Post.(*ast.IncDecStmt)
+				cond, ok3 := f.Cond.(*ast.BinaryExpr)
+				if !ok1 || !ok2 || !ok3 || len(init.Lhs) != 1 || len(init.Rhs) != 1 {
+					continue
+				}
+				zero, isC := astx.ConstInt(info, init.Rhs[0])
+				if astx.ObjOf(info, init.Lhs[0]) != idx || !isC || zero != 0 || post.Tok != token.INC || astx.ObjOf(info, post.X) != idx {
+					continue
+				}
+				if cond.Op != token.LSS || astx.ObjOf(info, cond.X) != idx {
+					continue
+				}
+				if lc, ok := astx.Unparen(cond.Y).(*ast.CallExpr); ok && len(lc.Args) == 1 && astx.IsBuiltin(info, lc, "len") && isAcceptList(lc.Args[0]) {
+					return astx.CanonKey(info, x), true
+				}
+			}
+		}
+		return "", false
+	}
 	// assignments
 	nReq, nResp := 0, 0
 	ast.Inspect(fd.Body, func(n ast.Node) bool {
@@ -75,6 +132,7 @@ func negotiate(c *core.Ctx) {
 		}
 		lhs := astx.ObjOf(info, as.Lhs[0])
 		rhs := astx.ObjOf(info, as.Rhs[0])
+		elemKey, isElem := acceptElem(as.Rhs[0])
 		switch {
 		case lhs == reqR && rhs == sent:
 			nReq++
@@ -86,27 +144,19 @@ func negotiate(c *core.Ctx) {
 			c.Check(all, "request/contains", as.Pos(), "requestCompression = sent only under availableCompressors.Contains(sent)")
 		case lhs == respR && rhs == reqR:
 			c.Ok("response/default", as.Pos(), "responseCompression starts as requestCompression")
-		case lhs == respR && rhs != nil && rhs != reqR:
+		case lhs == respR && isElem:
 			nResp++
-			// rhs is the loop variable over the accept list
-			var rng *ast.RangeStmt
-			for _, l := range loopsIn(fd.Body) {
-				if r, ok := l.(*ast.RangeStmt); ok && astx.Contains(r, as) {
-					rng = r
-				}
-			}
-			okLoop := false
-			if rng != nil && rng.Value != nil && astx.ObjOf(info, rng.Value) == rhs {
-				if call, ok := astx.Unparen(rng.X).(*ast.CallExpr); ok && len(call.Args) >= 1 && astx.ObjOf(info, call.Args[0]) == accept {
-					callee := astx.Callee(info, call)
-					okLoop = astx.IsPkgFunc(callee, "strings", "FieldsFunc") || astx.IsPkgFunc(callee, "strings", "Split") || astx.IsPkgFunc(callee, "strings", "Fields")
-				}
-			}
-			c.Check(okLoop, "response/client-order", as.Pos(), "the candidate comes from iterating the client's accept list in its own order")
+			c.Ok("response/client-order", as.Pos(), "the candidate comes from iterating the client's accept list in its own order")
 			dnf, _ := astx.PathConditions(info, fd.Body, as)
 			all := len(dnf) > 0
 			for _, conj := range dnf {
-				all = all && containsOf(conj, rhs, true)
+				found := false
+				for _, f := range conj {
+					if call, ok := astx.Unparen(f.Expr).(*ast.CallExpr); ok && isMethodNamed(info, call, "Contains") && len(call.Args) == 1 && astx.CanonKey(info, call.Args[0]) == elemKey && f.Pol {
+						found = true
+					}
+				}
+				all = all && found
 			}
 			c.Check(all, "response/contains", as.Pos(), "responseCompression = name only under availableCompressors.Contains(name)")
 		case lhs == respR:
@@ -135,7 +185,7 @@ func negotiate(c *core.Ctx) {
 		adopt := 0
 		for _, st := range s.Steps {
 			if as, ok := st.(*ast.AssignStmt); ok && len(as.Lhs) == 1 && len(as.Rhs) == 1 && astx.ObjOf(info, as.Lhs[0]) == respR {
-				if o := astx.ObjOf(info, as.Rhs[0]); o != nil && o != reqR {
+				if _, isElem := acceptElem(as.Rhs[0]); isElem {
 					adopt++
 				}
 			}
